@@ -409,6 +409,11 @@ func checkC18(w *World, r *Report) {
 	ruleHeapOrder(w, r, "C18")
 	ruleFinalRender(w, r, "C18")
 	ruleStateAgrees(w, r, "C18")
+	// the shutdown counter that drives popping advances with every frame, also the frames of a bar whose
+	// goroutine has exited (manual refresh), and a new bar is announced to the width matrices although
+	// a popped bar has just left the heap with the same length
+	checkOneFrame(w, r, "C18")
+	ruleAddPushesOrParks(w, r, "C18")
 	ruleOptionTable(w, r, "C18", map[string][3]string{"BarNoPop": {tBState, "noPop", "true"}, "PopCompletedMode": {tPState, "popCompleted", "true"}})
 }
 
